@@ -35,6 +35,10 @@ func Since(t Time) Duration { return Now().Sub(t) }
 func Until(t Time) Duration { return t.Sub(Now()) }
 func Sleep(d Duration) {
 	if vrt.Active() {
+		// the time passes on the harness-owned part of the clock (a loop that polls until a
+		// deadline ends after deadline/d rounds, without waiting in real time), and the
+		// sleeper offers the processor to the other threads
+		offset += d
 		vrt.Step("time.sleep")
 		return
 	}
